@@ -2,7 +2,7 @@
 from common import *
 import schema
 
-THEOREMS = []
+THEOREMS = ['readIdent_canonical', 'readLen_canonical', 'der_no_indefinite', 'header_canonical', 'der_parse_canonical', 'parseValue_canonical', 'parseAll_canonical', 'der_injective', 'decode_der_canonical', 'decode_der_injective', 'decode_der_canonical_runG', 'der_reparse', 'der_reencode_accepted', 'leaf_int_canonical', 'leaf_bool_canonical', 'leaf_null_canonical', 'leaf_integer_canonical', 'leaf_unsigned_canonical', 'leaf_oid_canonical', 'leaf_bits_canonical', 'leaf_octets_canonical', 'frame_inv', 'der_prim_framing', 'der_prim_canonical', 'canon_cons', 'canon_seq', 'der_canonical', 'top_canonical', 'top_canonical_runG', 'typed_injective', 'typed_injective_full', 'reencode_decodes', 'sample_canonical']
 RULE = ("valid DER encodings of random schemas (all leaf types, SEQUENCE/SET, explicit/implicit tags, OPTIONAL) and systematically "
         "de-canonicalised variants (long-form and non-minimal lengths, indefinite forms, BOOLEAN 01, padded integers, constructed strings, "
         "non-minimal identifier octets, random mutations) are decoded in DER mode by the typed readers; every variant the crate accepts is "
@@ -125,6 +125,9 @@ def decanon(rng, der):
     if r < 0.25 and len(b) >= 2 and b[1] < 0x80:
         k = rng.choice([1, 2, 3, 4])
         return bytes(b[:1]) + bytes([0x80 | k]) + int(b[1]).to_bytes(k, 'big') + bytes(b[2:])
+    if r < 0.25 and len(b) >= 2 and b[1] in (0x81, 0x82, 0x83) and (b[0] & 0x1f) != 0x1f:
+        k = b[1] & 0x7f        # long form already: one more (zero) length octet
+        return bytes(b[:1]) + bytes([0x80 | (k + 1)]) + b"\x00" + bytes(b[2:])
     if r < 0.35 and len(b) >= 2 and (b[0] & 0x20) and b[1] < 0x80:
         return bytes(b[:1]) + b"\x80" + bytes(b[2:]) + b"\x00\x00"
     if r < 0.45:
@@ -158,6 +161,34 @@ def gen(tier, rng):
                 r = "run der %s %s %s" % (src, hx(v), dec)
                 out.append(r)
                 SHAPES[r] = (sh, v)
+    # every definite length form around the form boundaries: the minimal one is accepted, every longer one is not
+    for L in ([0, 1, 127, 128, 129, 200, 255, 256, 257] if tier == "quick" else [0, 1, 127, 128, 129, 200, 255, 256, 257, 65535, 65536, 65537]):
+        content = bytes((i * 7 + L) & 0xff for i in range(L))
+        minimal = length(L)
+        forms = [minimal]
+        for k in (1, 2, 3, 4):
+            f = bytes([0x80 | k]) + L.to_bytes(k, 'big') if L < (1 << (8 * k)) else None
+            if f and f not in forms:
+                forms.append(f)
+        for f in forms:
+            for (tagb, dec, sh) in ((b"\x04", "T os", ("os", None)), (b"\x0c", "T rs utf8", None)):
+                if sh is None and any(c >= 0x80 for c in content):
+                    continue
+                v = tagb + f + content
+                for src in ("slice", "stingy"):
+                    r = "run der %s %s %s" % (src, hx(v), dec)
+                    out.append(r)
+                    SHAPES[r] = (sh, v)
+            inner = None
+            for c in range(max(L - 5, 0), L):
+                cand = b"\x04" + length(c) + content[:c]
+                if len(cand) == L:
+                    inner = cand
+            if inner is not None:
+                v = b"\x30" + f + inner
+                r = "run der slice %s seq { T os }" % hx(v)
+                out.append(r)
+                SHAPES[r] = (("seq", [("os", None)]), v)
     # padded / non-minimal leaves behind a source that grants exactly what is requested
     import scripts
     for (m, d, sc) in scripts.leaf_battery(rng, 3000 if tier == "quick" else 30000):
@@ -204,5 +235,5 @@ def nontrivial(req, ans):
     return req.startswith("run der") and ans.startswith("ok ")
 
 LEVEL = "proof"
-LEVEL_TEXT = "see THEOREMS"
-LEVEL_NOTE = ""
+LEVEL_TEXT = ("Lean 4 theorems for ALL inputs. Headers: the reference readers accept identifier octets and - in DER/CER - definite length octets only in their canonical form (readIdent_canonical, readLen_canonical), DER rejects the indefinite form (der_no_indefinite). Structure: whatever the grammar and, through C02, the generic reader accept in DER mode is the canonical encoding treesBytes of the trees returned, so two different octet strings never decode to equal trees, and the canonical octets are accepted again (der_parse_canonical, der_injective, decode_der_canonical, decode_der_injective, der_reparse, der_reencode_accepted). Typed leaves: for every supported primitive type the accepted content is exactly what the encoder writes for the decoded value (leaf_*_canonical: all ten fixed-width INTEGER types, BOOLEAN, NULL, Integer, Unsigned, OBJECT IDENTIFIER, BIT STRING, OCTET STRING). Typed framing and composition: if a tag-selective read returns a value in DER mode, the octets it consumed are the canonical header followed by exactly the content window (frame_inv, der_prim_framing, der_prim_canonical), and by induction over the DerCodec family (primitive / tagged constructed / sequence / OPTIONAL present or absent / Choice / mapped) the octets consumed by any such decoder are exactly Enc.write .der of the decoded value (der_canonical, top_canonical, typed_injective_full, reencode_decodes). Correspondence: valid DER of random schemas and systematically de-canonicalised variants (every definite length form around 127/128/255/256/65535/65536, indefinite forms, BOOLEAN 01, padded integers, constructed strings, non-minimal identifiers), each accepted variant re-encoded with the real encoders and compared octet for octet, over slice and stingy sources.")
+LEVEL_NOTE = ("Trusted: Lean 4.33 kernel; axioms propext, Classical.choice, Quot.sound only; the hand-written model tied to /repo on every run by differential correspondence through the real decoders and encoders. In the typed algebra primitive closures must be window programs (no limit changes, no capture: every leaf accessor is, Lemmas/Window). Not in the algebra (covered structurally by the grammar theorems and by the correspondence check): the untagged readers, restricted character strings and Captured as leaves, SET OF ordering and DEFAULT omission (the crate has no such notion). Unused bits of a BIT STRING are kept verbatim by the value.")
